@@ -247,11 +247,24 @@ def rule_classes(facts, rep):
         if hir.is_call(e, "anstyle::effect::Effects::contains") and hir.is_local(e["args"][0], "effects"):
             flag_of[name] = hir.last_seg(hir.def_path(e["args"][1]))
     span = {}
+    R = hir.Resolver(fg["hir"])
     for n in hir.walk(fg["hir"]):
-        if n.get("k") == "if" and hir.simp(n["c"]).get("k") == "local" and hir.simp(n["c"])["name"] in flag_of:
-            pushes = [c for c in hir.walk(n["t"]) if hir.is_call(c, "alloc::vec::Vec::<T, A>::push")]
-            if len(pushes) == 1:
-                span[flag_of[hir.simp(n["c"])["name"]]] = hir.lit_val(pushes[0]["args"][1])
+        if n.get("k") != "if":
+            continue
+        c = hir.simp(n["c"])
+        eff = None
+        if c.get("k") == "local" and c["name"] in flag_of:
+            eff = flag_of[c["name"]]
+        elif hir.is_call(c, "anstyle::effect::Effects::contains") and hir.is_local(c["args"][0], "effects"):
+            eff = hir.last_seg(hir.def_path(hir.simp(R.res(c["args"][1])))) if hir.def_path(hir.simp(R.res(c["args"][1]))) else None
+        if eff is None:
+            continue
+        pushes = [c_ for c_ in hir.walk(n["t"]) if hir.is_call(c_, "alloc::vec::Vec::<T, A>::push")]
+        if len(pushes) == 1 and "e" not in n:
+            if eff in span:
+                span[eff] = None         # two tests of one effect: ambiguous
+            else:
+                span[eff] = hir.lit_val(hir.simp(R.res(pushes[0]["args"][1])))
     r = facts.body("anstyle_svg", V + "Term::render_svg")
     sheet = {}
     for n in hir.walk(r["hir"]):
